@@ -668,6 +668,12 @@ def run(prog, chk, tier):
     digest_rules(prog, chk, "C18")
     rfc6979_rules(prog, chk, "C18")
     hash_consistency_rules(prog, chk, "C18")
+    # the verdict is computed by PointJacobi.mul_add: its digit selection, fallbacks and the addition dispatcher (both encodings of infinity occur among the
+    # precomputed sums when the public point is +-G or a small multiple) are necessary conditions of "a signature verifies under the matching key"
+    from rules import c17
+
+    c17.sibling_rules(prog, chk, "C18")
+    c17.mul_add_rules(prog, chk, "C18")
     stackrt.guarded(chk, "C18.sig-codec-scenarios", sig_codec_scenarios, prog, chk, "C18", tier)
     chk.assume("group orders are >= 2, so fixed-length signature fields are at least one byte long")
-    chk.assume("numeric correctness of ECDSA (group law: C17 clauses; hash functions; RFC 6979 HMAC-DRBG) is outside this check")
+    chk.assume("numeric correctness of ECDSA (group-law formulas: C17 clauses; hash functions; RFC 6979 HMAC-DRBG) is outside this check")
